@@ -18,7 +18,7 @@ import time
 from . import env, evidence, findings, scenarios
 from .scenarios import T, E, H, C
 
-NEXT_KINDS = ["none", "same", "prev", "neg", "frac", "float", "str", "npfrac"]
+NEXT_KINDS = ["none", "same", "prev", "neg", "frac", "float", "str", "npfrac", "bool"]
 LOCAL_ONLY_KINDS = ("npfrac",)      # numpy scalars cannot be sent over a (JSON) connection
 TIME_KINDS = ["prev", "neg"]
 
